@@ -308,3 +308,53 @@ Proof.
     exists l, s'. split; [assumption|]. split; [assumption|]. eapply strict; eassumption.
   - intros ls' s'. apply ranked_runs_bounded.
 Qed.
+
+(* ---- exporter without queue: no NEW attempt after the return ------------------------------------------ *)
+Definition wready (w : work) : nat := match w_st w with SReady => 1 | _ => 0 end.
+Definition ready (s : state) : nat := sumf wready (works s).
+Definition is_begin (l : label) : nat := match l with LBegin _ => 1 | _ => 0 end.
+
+Lemma step_ready c s l s' : Inv c s -> c_queue c = false -> step c s l = Some s' -> ranked l = true ->
+  ready s' + is_begin l <= ready s.
+Proof.
+  intros I Q H R. destruct (i_noqueue _ _ I Q) as (A1 & A2 & A3 & A4 & A5 & A6 & _ & _ & _ & A10). clear I.
+  destruct l; try discriminate R; clear R;
+    try (match goal with o : outcome |- _ => destruct o end); unfold step, is_ok, end_state in H;
+    rewrite ?A1, ?A2, ?A3, ?A4, ?A5, ?A6, ?Q in H; cbn [negb andb orb nth_error] in H;
+    try discriminate H; try (destruct k; discriminate H); try (destruct n; discriminate H).
+  all: destr_step H; injection H as <-; proj; unfold ready, wready, is_begin, set_st in *; proj; try lia;
+       splits; rw_eqs; cbn [sumf w_st] in *; try lia.
+  all: ifs; try lia.
+  all: rewrite Heqp in A10; contradiction.
+Qed.
+
+Lemma run_ready c : forall ls s s', Inv c s -> c_queue c = false -> run c s ls = Some s' -> forallb ranked ls = true ->
+  ready s' + sumf is_begin ls <= ready s.
+Proof.
+  induction ls as [|l ls IH]; intros s s' I Q H R; simpl in *.
+  - injection H as <-. lia.
+  - destruct (step c s l) as [s1|] eqn:St; [|discriminate]. apply andb_prop in R as [R1 R2].
+    pose proof (step_ready _ _ _ _ I Q St R1). specialize (IH _ _ (step_inv _ _ _ _ I St) Q H R2). lia.
+Qed.
+
+(* the clause "all export calls have returned" does NOT hold for an exporter without queue: Shutdown has
+   nothing to join, a Send that is inside the export function stays there *)
+Lemma direct_open_call_refuted_l : exists c ls s,
+  c_queue c = false /\ run c (init c) ls = Some s /\ pc s = PReturned /\
+  cnt 1 (begun s) = 1 /\ cnt 1 (ended s) = 0 /\ live s = 1.
+Proof.
+  exists (mkCfg false false false false true 0 0 1), [LSend 1; LBegin 0; LShutCall; LCloseStop; LNoQueue; LInnerShutdown; LReturn].
+  eexists. split; [reflexivity|]. split; [vm_compute; reflexivity|]. repeat split.
+Qed.
+
+(* shutdown_drains_memory needs at least one consumer: with num_consumers = 0 (rejected by queuebatch.Config.Validate,
+   "`num_consumers` must be positive") nothing is ever exported *)
+Lemma no_consumer_refuted_l : exists c ls s,
+  c_queue c = true /\ c_persist c = false /\ c_ncons c = 0 /\ run c (init c) ls = Some s /\ pc s = PReturned /\
+  In 1 (accpre s) /\ cnt 1 (begun s) = 0.
+Proof.
+  exists (mkCfg true false false false true 0 0 1),
+         [LOffer 1; LShutCall; LCloseStop; LQueueStop false; LJoinConsumers; LFinalFlush; LJoinFlushes; LInnerShutdown; LReturn].
+  eexists. split; [reflexivity|]. split; [reflexivity|]. split; [reflexivity|]. split; [vm_compute; reflexivity|].
+  repeat split. left. reflexivity.
+Qed.
